@@ -143,6 +143,8 @@ def run_job(ws, unit, job, tier):
     rc, out, err, t = sh(['goto-cc', '--function', job['entry']] + defs + [u['path'], '-o', a], timeout=300)
     if rc != 0:
         rec['status'] = 'ERROR'; rec['detail'] = 'goto-cc: ' + (err or out)[-3000:]; return rec
+    if os.environ.get('VERIF_BUILD_ONLY'):      # debugging aid: stop after goto-cc (use with bin/check --keep)
+        rec['status'] = 'ERROR'; rec['detail'] = 'build only: ' + a; return rec
     cmdline = []
     target = a
     if job.get('enforce') or job.get('replace'):
@@ -221,6 +223,16 @@ def run_job(ws, unit, job, tier):
     rec['failed'] = failed
     return rec
 
+def run_job_retry(ws, unit, job, tier):
+    """a job that times out with the external (non-incremental) kissat is retried once with the built-in incremental cadical:
+    with several failing obligations kissat is re-run per obligation and can exceed any budget, cadical decides them in one run"""
+    rec = run_job(ws, unit, job, tier)
+    if rec.get('status') == 'TIMEOUT' and job.get('solver', 'minisat') == 'kissat':
+        rec2 = run_job(ws, unit, dict(job, solver='cadical'), tier)
+        rec2['retried_after_timeout'] = 'kissat'
+        return rec2
+    return rec
+
 def run_jobs(ws, jobs, tier, workers=None):
     """jobs: list of (unit, job).  Runs in parallel; returns list of records in the same order."""
     workers = workers or min(14, max(1, (os.cpu_count() or 4) - 2))
@@ -228,7 +240,7 @@ def run_jobs(ws, jobs, tier, workers=None):
     for unit, job in jobs: ws.build_unit(unit)
     recs = [None] * len(jobs)
     with concurrent.futures.ThreadPoolExecutor(max_workers=workers) as pool:
-        futs = {pool.submit(run_job, ws, unit, job, tier): i for i, (unit, job) in enumerate(jobs)}
+        futs = {pool.submit(run_job_retry, ws, unit, job, tier): i for i, (unit, job) in enumerate(jobs)}
         for f in concurrent.futures.as_completed(futs):
             recs[futs[f]] = f.result()
     return recs
